@@ -136,6 +136,19 @@ def check(spec, ctx):
     if molecule is None:
         raise Violation("written:capture", "molecule not captured")
     built_atoms, built_inter = gpcheck.molecule_tables(molecule)
+    # the interaction lines of the molecule as it stood when links and modifications had been applied are the
+    # lines of the molecule that is handed to the writer
+    then = run.captured.get("built_lines")
+    if then is not None:
+        now = sorted((sec, tuple(str(a) for a in it.atoms), tuple(str(p_) for p_ in it.parameters),
+                      str((it.meta or {}).get("ifdef")), str((it.meta or {}).get("ifndef")))
+                     for sec, items in molecule.interactions.items() for it in items)
+        if then != now:
+            from collections import Counter
+            gone = list((Counter(then) - Counter(now)).elements())[:3]
+            new_ = list((Counter(now) - Counter(then)).elements())[:3]
+            raise Violation("built_vs_handed_to_writer", f"{len(then)} lines built, {len(now)} written; "
+                                                         f"dropped={gone} new={new_}")
     # (a) file == built molecule, through the independent reader
     err = gpcheck.same_atoms(written["atoms"], built_atoms)
     if err:
